@@ -1434,8 +1434,10 @@ CC_TRIPLE_ATTRS = ["public", "no_store", "max_age", "s_maxage", "no_cache", "pri
 def units(tier):
     u = [("graph", "set", p) for p in SET_PROPS]
     u += [("graph", "cc", pair) for pair in itertools.combinations(sorted(CC_DIRECTIVES), 2)]
-    if tier == "thorough":
-        u += [("graph", "cc", t) for t in itertools.combinations(CC_TRIPLE_ATTRS, 3)]
+    triples = list(itertools.combinations(CC_TRIPLE_ATTRS, 3))
+    quick_triples = [("public", "max_age", "no_cache"), ("no_store", "s_maxage", "private"), ("max_age", "s_maxage", "no_cache")]
+    assert all(t in triples for t in quick_triples)
+    u += [("graph", "cc", t) for t in (triples if tier == "thorough" else quick_triples)]
     u += [("graph", "csp", p) for p in CSP_PROPS]
     u += [("graph", "mime", ()), ("graph", "www", ()), ("graph", "cr", ())]
     for spec in SCALARS:
@@ -1532,7 +1534,7 @@ def finalize(R, tier):
         "bound": ("sets <=4 items over 8 spellings; cache-control: every pair of the 13 directives and every triple of 6 "
                   "representative ones x 6 values; csp <=3 of 4 directives; mimetype <=3 params; www-authenticate <=3 params; "
                   if tier == "thorough" else
-                  "sets <=3 items over 6 spellings; cache-control: every pair of the 13 directives x 6 values; csp <=2 of 4 "
+                  "sets <=3 items over 6 spellings; cache-control: every pair of the 13 directives and 3 triples x 6 values; csp <=2 of 4 "
                   "directives; mimetype <=2 params; www-authenticate <=2 params; ")
                  + f"content-range over 3x3x3 values; scalar properties: op sequences <= {scalar_depth(tier)}",
         "exhaustive": True,
